@@ -639,6 +639,8 @@ fn group_layer(ctx: &mut Ctx) {
             for (cls, kv) in &scalars {
                 let lk = limbs(kv);
                 same_g1(ctx, "point_mul", cls, guard(|| lp.point_mul(&lk)), &r9::g1_mul(kv, &sp), json!({"P": g1_hex(&pa), "Z": hex::encode(r9::b32(&l1)), "k": hl(&lk)}));
+                same_g1(ctx, "point_mul", "consecutive_negated_base", guard(|| ln1.point_mul(&lk)), &r9::g1_neg(&r9::g1_mul(kv, &sp)), json!({"P": "-P", "k": hl(&lk)}));
+                same_g1(ctx, "point_mul", "consecutive_same_point_other_Z", guard(|| lp2.point_mul(&lk)), &r9::g1_mul(kv, &sp), json!({"P": "P'", "k": hl(&lk)}));
                 same_g1(ctx, "g_mul", cls, guard(|| Point::g_mul(&lk)), &r9::g1_mul(kv, &r9::g1_gen()), json!({"k": hl(&lk)}));
             }
         }
@@ -709,6 +711,9 @@ fn group_layer(ctx: &mut Ctx) {
                 // G2 multiplications are 256 double-and-adds in the library (~1.3 ms) and in the reference
                 let lk = limbs(kv);
                 same_g2(ctx, "point_mul", cls, guard(|| lp.point_mul(&lk)), &r9::g2_mul(kv, &sp), json!({"case": w, "k": hl(&lk)}));
+                if i % 2 == 0 {
+                    same_g2(ctx, "point_mul", "consecutive_negated_base", guard(|| ln1.point_mul(&lk)), &r9::g2_neg(&r9::g2_mul(kv, &sp)), json!({"case": w, "k": hl(&lk)}));
+                }
                 if i % 3 == 0 {
                     same_g2(ctx, "g_mul", cls, guard(|| TwistPoint::g_mul(&lk)), &r9::g2_mul(kv, &r9::g2_gen()), json!({"k": hl(&lk)}));
                 }
@@ -726,7 +731,7 @@ pub fn run(ctx: &mut Ctx) {
         "Fp12::fp_mul", "Fp12::fp_sqr", "Fp12::fp_inv", "Fp12::frobenius^1", "Fp12::frobenius^2", "Fp12::frobenius^3", "Fp12::frobenius^6", "Fp12::fp_line_mul", "Fp12::pow", "Fp12::final_exponent", "fp12_zero_subset", "fp12_c2_zero_branch",
         "mod_n_add", "mod_n_sub", "mod_n_mul", "mod_n_inv", "mod_n_pow", "booth_w5", "booth_w7", "booth_recomposition", "table_entry", "table_scalar", "table_scalar_negated",
         "G1::point_add", "G1::point_double", "G1::point_mul", "G1::g_mul", "G1::point_equals", "G1::is_on_curve", "G2::point_add", "G2::twist_point_add_full", "G2::point_double", "G2::point_mul", "G2::g_mul", "G2::point_equals", "G2::point_pi1",
-        "P_eq_Q_diff_Z", "P_eq_negQ_diff_Z", "P_ne_Q_rhs_Z!=1", "infinity_arbitrary_XY", "k=0", "k=N", "k=N+1", "k=2^256-1", "k=random",
+        "P_eq_Q_diff_Z", "P_eq_negQ_diff_Z", "P_ne_Q_rhs_Z!=1", "consecutive_negated_base", "consecutive_same_point_other_Z", "infinity_arbitrary_XY", "k=0", "k=N", "k=N+1", "k=2^256-1", "k=random",
     ]);
     tower_layer(ctx);
     modn_layer(ctx);
